@@ -470,6 +470,11 @@ class YieldChecker:
                 ]
                 return Replacement(to_delete, between_lines + yield_lines)
         elif first_yield.is_assign_or_expr():
+            # the second yield cannot move above code that computes what it yields
+            if self._is_assigned_between(
+                second_yield, first_yield.line_range[-1], second_yield.line_range[0]
+            ):
+                return None
             # move the target of the second yield to right after the first one
             indentation = first_yield.get_indentation()
             new_assign_lines, replace_yield = self._move_out_var_from_yield(
@@ -496,6 +501,11 @@ class YieldChecker:
 
             return Replacement(to_delete, to_add)
         else:
+            # the second yield ends up above the first statement and the code in between
+            if self._is_assigned_between(
+                second_yield, first_yield.line_range[0] - 1, second_yield.line_range[0]
+            ):
+                return None
             indentation = first_yield.get_indentation()
             lines_to_add, replace_first = self._move_out_var_from_yield(
                 first_yield, indentation
@@ -558,6 +568,27 @@ class YieldChecker:
             and isinstance(node.ctx, ast.Load)
             and start < node.lineno < end
             and _usage_key(node) in targets
+            for node in ast.walk(tree)
+        )
+
+    def _is_assigned_between(
+        self, yield_info: YieldInfo, after_line: int, before_line: int
+    ) -> bool:
+        """Whether the yielded expression reads a name that is assigned on the lines
+        strictly between after_line and before_line."""
+        tree = self.visitor.tree
+        if tree is None or yield_info.yield_node.value is None:
+            return False
+        read = {
+            node.id
+            for node in ast.walk(yield_info.yield_node.value)
+            if isinstance(node, ast.Name)
+        }
+        return any(
+            isinstance(node, ast.Name)
+            and isinstance(node.ctx, ast.Store)
+            and after_line < node.lineno < before_line
+            and node.id in read
             for node in ast.walk(tree)
         )
 
